@@ -134,3 +134,115 @@ Proof.
     - rewrite (Z0 eq_refl). cbn. lia. }
   lia.
 Qed.
+
+(* ---- sets handed over ------------------------------------------------------------------------------------------------ *)
+(* every set handed over costs an empty poll: ORet comes out of the step that found nothing more to read, and only there *)
+Definition tame (x : rout) : Prop := match x with ORaise _ | OOobUp _ => True | _ => False end.
+
+Lemma socks_loop_tame (v : variant) socks : forall st f st' f' o,
+  socks_loop v st f socks = (st', f', o) -> Forall tame o.
+Proof.
+  revert socks.
+  assert (FM : forall st f brk i eph topics st' f' o brk',
+             fin_msg st f brk i eph topics = (st', f', o, brk') -> Forall tame o).
+  { unfold fin_msg. intros st f brk i eph topics st' f' o brk' E.
+    destruct (nth_error (srcs st) i); [destruct (got_all _); [destruct (registered _)|]|];
+      inversion E; subst; repeat constructor. }
+  assert (OM : forall v0 st f i m st' f' o brk,
+             on_msg v0 st f i m = (st', f', o, brk) -> Forall tame o).
+  { unfold on_msg. intros v0 st f i m st' f' o brk E.
+    destruct (nth_error (srcs st) i) as [s0|]; [|inversion E; subst; repeat constructor].
+    destruct (w_mid m <=? MSG_ID_SPECIAL).
+    { destruct (w_mid m =? MSG_ID_OOB); [|destruct (w_mid m =? MSG_ID_CLOSE)]; inversion E; subst; repeat constructor. }
+    destruct (negb (sc_eph (cfg s0) =? 0)).
+    - destruct (process_msg _ _ _ _ _ _ _) as [[nw s2]|]; [eapply FM; exact E|inversion E; subst; constructor].
+    - destruct (process_msg _ _ _ _ _ _ _) as [[nw s2]|]; [eapply FM; exact E|inversion E; subst; constructor]. }
+  intros socks. induction socks as [|i rest IH]; intros st f st' f' o E; cbn [socks_loop] in E.
+  - inversion E; subst. constructor.
+  - destruct (nth_error (srcs st) i) as [s|]; [|inversion E; subst; repeat constructor].
+    destruct (queue s) as [|m q']; [inversion E; subst; repeat constructor|].
+    destruct (on_msg v _ f i m) as [[[st1 f1] o1] brk] eqn:Eo.
+    pose proof (OM _ _ _ _ _ _ _ _ _ Eo) as O1.
+    destruct (control st1); try (inversion E; subst; exact O1).
+    all: destruct brk; try (inversion E; subst; exact O1).
+    all: destruct (socks_loop v st1 f1 rest) as [[st2 f2] o2] eqn:E2; inversion E; subst.
+    all: apply Forall_app; split; [exact O1|eapply IH; exact E2].
+Qed.
+
+Definition rets (o : list rout) : nat := length (filter (fun x => match x with ORet _ _ _ => true | _ => false end) o).
+
+Lemma rets_app a b : rets (a ++ b) = (rets a + rets b)%nat.
+Proof. unfold rets. rewrite filter_app, app_length. reflexivity. Qed.
+
+Lemma tame_rets o : Forall tame o -> rets o = 0%nat.
+Proof. induction 1 as [|x o Hx _ IH]; [reflexivity|]. destruct x; try destruct Hx; exact IH. Qed.
+
+Lemma pushes_rets o : (forall x, In x o -> exists i q, x = OPush i q) -> rets o = 0%nat.
+Proof.
+  induction o as [|x o IH]; intro H; [reflexivity|]. destruct (H x (or_introl eq_refl)) as (i & q & ->).
+  cbn. apply IH. intros y Hy. apply H. right. exact Hy.
+Qed.
+
+Definition empty_poll (it : ritem) : bool := match it with IPoll [] _ => true | _ => false end.
+
+Theorem rstep_rets v st it st' o :
+  rstep v st it = (st', o) -> (rets o <= (if empty_poll it then 1 else 0))%nat.
+Proof.
+  unfold rstep. intro E.
+  destruct (control st) as [|f|f|] eqn:Ec; [| | |inversion E; subst; cbn; lia].
+  all: destruct it as [i m|i b|state timeout t_now|ready t_now|pay|].
+  1,7,13: destruct (nth_error (srcs st) i); [destruct (sub_match _ _)|]; inversion E; subst; cbn; lia.
+  1,6,11: inversion E; subst; cbn; lia.
+  - destruct (call_start v (with_now t_now st) state) as [st1 m]. inversion E; subst. cbn. lia.
+  - inversion E; subst; cbn; destruct ready; lia.
+  - destruct (push_special st MSG_ID_OOB (Some pay)) as [st1 o1] eqn:Ep. inversion E; subst.
+    destruct (push_special_facts _ _ _ _ _ Ep) as (_ & _ & _ & _ & Po). rewrite (pushes_rets _ Po). cbn. lia.
+  - destruct (push_special st MSG_ID_CLOSE None) as [st1 o1] eqn:Ep. inversion E; subst.
+    destruct (push_special_facts _ _ _ _ _ Ep) as (_ & _ & _ & _ & Po). rewrite (pushes_rets _ Po). cbn. lia.
+  - inversion E; subst; cbn; lia.
+  - (* P1 *)
+    destruct (valid_ready _ ready); cbn [negb] in E; [|inversion E; subst; cbn; destruct ready; lia].
+    destruct ready as [|r0 ready'].
+    + unfold after_once_false in E. destruct (request (with_now t_now st) (f_min f - 1)) as [st1 o1] eqn:Er.
+      destruct (request_facts _ _ _ _ Er) as (_ & _ & _ & _ & _ & _ & Po).
+      destruct (f_timeout f); [destruct (_ =? 0)|]; inversion E; subst; rewrite rets_app, (pushes_rets _ Po); cbn; lia.
+    + destruct (socks_loop v _ f (rev (r0 :: ready'))) as [[st1 f1] o1] eqn:Es.
+      pose proof (tame_rets _ (socks_loop_tame _ _ _ _ _ _ _ Es)) as P.
+      destruct (control st1); try (inversion E; subst; rewrite P; cbn; lia).
+      all: destruct (ready_flags st1); inversion E; subst; rewrite rets_app, P; cbn; lia.
+  - inversion E; subst; cbn; lia.
+  - inversion E; subst; cbn; lia.
+  - inversion E; subst; cbn; lia.
+  - (* P2 *)
+    destruct (valid_ready _ ready); cbn [negb] in E; [|inversion E; subst; cbn; destruct ready; lia].
+    destruct ready as [|r0 ready']; [|inversion E; subst; cbn; lia].
+    unfold finish in E.
+    destruct (if negb (low_latency (with_now t_now st)) && negb (f_bal f =? 1)
+              then request (with_now t_now st) (f_min f) else (with_now t_now st, [])) as [st1 o1] eqn:Er.
+    assert (P : rets o1 = 0%nat).
+    { destruct (negb _ && negb _).
+      - destruct (request_facts _ _ _ _ Er) as (_ & _ & _ & _ & _ & _ & Po). exact (pushes_rets _ Po).
+      - inversion Er; subst. reflexivity. }
+    cbn [srcs with_prev] in E.
+    destruct (assemble (srcs st1) []); inversion E; subst; rewrite rets_app, P; cbn; lia.
+  - inversion E; subst; cbn; lia.
+  - inversion E; subst; cbn; lia.
+Qed.
+
+Fixpoint empty_polls (its : list ritem) : nat :=
+  match its with [] => 0 | it :: r => ((if empty_poll it then 1 else 0) + empty_polls r)%nat end.
+
+(* the spending steps of a run are at least its empty polls, and the sets it hands over at most its empty polls *)
+Theorem returns_cost_empty_polls v : forall its st, (rets (snd (rrun v st its)) <= empty_polls its)%nat.
+Proof.
+  induction its as [|it its IH]; intro st; cbn [rrun empty_polls]; [cbn; lia|].
+  destruct (rstep v st it) as [st1 o1] eqn:E. specialize (IH st1).
+  destruct (rrun v st1 its) as [st2 o2]. cbn [snd] in *. rewrite rets_app.
+  pose proof (rstep_rets _ _ _ _ _ E). lia.
+Qed.
+
+Lemma empty_polls_le_spent its : (empty_polls its <= spent its)%nat.
+Proof.
+  induction its as [|it its IH]; cbn [empty_polls spent]; [lia|].
+  destruct it as [| | |[|r rs] t| |]; cbn; lia.
+Qed.
